@@ -32,3 +32,26 @@ PROPERTIES["C19"] = {
                  {"internal/orderedmap/zz_verif_c19.go": "harness/orderedmap/zz_verif_c19.go"},
                  ["VerifC19Step", "VerifC19History"], "internal/orderedmap", panics="violation")],
 }
+
+
+ZZ_SYMIR = {"internal/zzverif/symir/symir.go": "harness/zzverif/symir/symir.go"}
+
+def _h(*pairs):
+    d = dict(ZZ_SYMIR)
+    for virt, real in pairs:
+        d[virt] = real
+    return d
+
+COMPILER_HARNESS = _h(("internal/ast/compiler/zz_verif_c05.go", "harness/compiler/zz_verif_c05.go"))
+
+PROPERTIES["C05"] = {
+    "level_text": "Bounded symbolic execution + SMT of the real passes (via compiler.Passes.Process, i.e. after the deep copy, as users run them) on "
+                  "symbolic schemas: `all references resolve` is assumed for the input and asserted for the output, for every shape in the "
+                  "grammar and every value of the symbolic names/parameters.",
+    "level_note": "Bounds: packages p,q; <=3 objects; main object depth 1 over {scalar, ref, constant_ref, array, map, struct<=2, union of 2}; "
+                  "names over {Foo,foo,Bar,...} (case variants on purpose). CUE front end and references into unloaded packages are outside the claim.",
+    "bounds": {"schemas": "2 packages, <=3 objects, main object T(1), names over a case-sensitive alphabet of 3-4, pass parameters symbolic over the same alphabets"},
+    "runs": [Run("compiler", ["./internal/ast/compiler"], COMPILER_HARNESS,
+                 ["VerifC05Rename", "VerifC05Prefix", "VerifC05Duplicate", "VerifC05Unspec", "VerifC05ReplaceReference", "VerifC05AllowedObjects"],
+                 "internal/ast/compiler", needs_leaf=True)],
+}
